@@ -14,12 +14,14 @@ import dawgie
 import dawgie.context
 import dawgie.db
 import dawgie.fe.api as api
+import dawgie.fe.api.submit as api_submit
 import dawgie.fe.submit as fe_submit
 import dawgie.pl.farm as farm
 import dawgie.pl.schedule as schedule
 import dawgie.pl.state as state
 import dawgie.tools.submit as tools_submit
 import twisted.internet.defer
+import twisted.internet.error
 import twisted.internet.protocol
 import twisted.python.failure
 import twisted.web.server
@@ -165,8 +167,13 @@ class World:
         # submission path: real Defer/Process, git and mail stubbed
         fe_submit.twisted = NS(internet=NS(reactor=self.reactor, defer=twisted.internet.defer, protocol=twisted.internet.protocol), python=NS(failure=twisted.python.failure),
                                web=NS(server=twisted.web.server))
+        # /api/rev/submit: step_3 runs only when the compliance subprocess ended (asynchronous: the pipeline rests in gitting)
+        self.spawned = []
+        self.reactor.spawnProcess = lambda handler, *a, **k: self.spawned.append(handler)
+        api_submit.twisted = NS(internet=NS(reactor=self.reactor, defer=twisted.internet.defer, protocol=twisted.internet.protocol, error=twisted.internet.error),
+                                python=NS(failure=twisted.python.failure), web=NS(server=twisted.web.server))
         tools_submit.already_applied = lambda cs, repo: False
-        tools_submit.automatic = lambda **kw: tools_submit.State.SUCCESS if self.submit_ok else tools_submit.State.FAILED
+        tools_submit.automatic = self._automatic
         tools_submit.mail_out = lambda *a, **k: None
         self.edges = self._edges()
         self.fsm = None
@@ -180,6 +187,13 @@ class World:
             a = e.get_attributes()
             out.setdefault(a['trigger'], set()).add((a['source'], a['dest']))
         return out
+
+    def _automatic(self, **kw):
+        if not self.submit_ok:
+            return tools_submit.State.FAILED
+        if self.use_spawn:
+            kw['spawn'](['python', '-m', 'dawgie.tools.compliant'])
+        return tools_submit.State.SUCCESS
 
     def _build(self, *a):
         self.calls.append('schedule.build')
@@ -219,6 +233,9 @@ class World:
             self.fsm.machine.get_state(st).add_callback('enter', self._changed)
         self.updates = []  # (state of the work, priority) at each ACCEPTED update_trigger
         self.submitter = fe_submit.Defer()
+        self.api_submitter = api_submit.Defer()
+        del self.spawned[:]
+        self.use_spawn = False
         self.set_level(0)
 
     def _changed(self, *a, **k):
@@ -262,10 +279,32 @@ class World:
             self.reactor.fire_oldest()
         return r, req
 
+    def submit_api(self, priority, ok=True):
+        """POST /api/rev/submit: steps 1-2 run now; step 3 waits for verify()"""
+        self.submit_ok = ok
+        self.use_spawn = True
+        req = Request()
+        self.api_submitter.request = req
+        try:
+            r = self.api_submitter(['abc123'], [priority])
+            while self.reactor.calls:
+                self.reactor.fire_oldest()
+        finally:
+            self.use_spawn = False
+        return r, req
+
+    def verify(self, ok):
+        """the compliance subprocess of the oldest pending API submission ends"""
+        h = self.spawned.pop(0)
+        reason = NS(value=twisted.internet.error.ProcessDone(0) if ok else twisted.internet.error.ProcessTerminated(exitCode=1))
+        h.processEnded(reason)
+        while self.reactor.calls:
+            self.reactor.fire_oldest()
+
     def snapshot(self):
         f = self.fsm
         return (f.state, f.transitioning, f._FSM__prior, f.priority, f.wait_on_crew.is_set(), f.wait_on_doing.is_set(), f.wait_on_todo.is_set(),
-                tuple(j.name for j in self.threads.pending), len(farm._workers), farm.ARCHIVE)
+                tuple(j.name for j in self.threads.pending), len(farm._workers), farm.ARCHIVE, len(self.spawned))
 
     def lifecycle_jobs(self):
         return [j for j in self.threads.pending if j.name in ('_pipeline', '_reload', '_archive', '_navel_gaze')]
